@@ -297,16 +297,16 @@ def record(td, rng, kinds, rid, notes_text=None, max_probes=60):
                 B = eng.beat_at(t, tag_enum(tag))
             qb = q_of_beat(B)
             return tag, (qb if qb is not None else 1)
+        # collect the asked times first, then ask in nested or in random order (with repeats): answers must not
+        # depend on which queries came before
+        asks = []
         for p in ps:
             for tag0 in (0, 5, 6):
                 t = safe(lambda: eng.time_at(beat_of(p), tag_enum(tag0)))
                 if t is None:
                     return rec
                 for tag in (0, None, rng.choice([1, 2, 3, 4, 6])):
-                    r = safe(lambda: ask(t, tag))
-                    if r is None:
-                        return rec
-                    qs.append({"k": "beatsym", "b0": p, "tag0": tag0, "half": 0, "idx": 1, "tag": r[0], "B": r[1]})
+                    asks.append((t, tag, {"k": "beatsym", "b0": p, "tag0": tag0, "half": 0, "idx": 1}))
         for kind, lst, half, tg in (("stops", td.stops, 1, 5), ("delays", td.delays, 2, 3)):
             for idx, (p, v) in enumerate(lst):
                 t0 = safe(lambda: eng.time_at(beat_of(p), tag_enum(tg)))
@@ -314,10 +314,15 @@ def record(td, rng, kinds, rid, notes_text=None, max_probes=60):
                     return rec
                 t = float(Fraction(t0) + Fraction(Decimal(v)) / 2)
                 for tag in (0, None, 6):
-                    r = safe(lambda: ask(t, tag))
-                    if r is None:
-                        return rec
-                    qs.append({"k": "beatsym", "b0": p, "tag0": tg, "half": half, "idx": idx + 1, "tag": r[0], "B": r[1]})
+                    asks.append((t, tag, {"k": "beatsym", "b0": p, "tag0": tg, "half": half, "idx": idx + 1}))
+        if rng.random() < 0.5:
+            rng.shuffle(asks)
+            asks += rng.sample(asks, min(len(asks), 15))
+        for t, tag, q in asks:
+            r = safe(lambda: ask(t, tag))
+            if r is None:
+                return rec
+            qs.append(dict(q, tag=r[0], B=r[1]))
         if sm:
             import math
             ends = [math.floor((Fraction(eng.time_at(beat_of(p))) + Fraction(Decimal(td.offset))) * U) for p in (ps[0], ps[-1])]
